@@ -17,12 +17,13 @@ func ParseTargetType(targetCtx string) string {
 		fieldType := mapFields[targetCtx]
 		formalType := formalParameters[targetCtx]
 		localVarType := localVars[targetCtx]
-		if fieldType != "" {
-			targetType = fieldType
-		} else if formalType != "" {
+		// a parameter or local variable shadows a field of the same name
+		if formalType != "" {
 			targetType = formalType
 		} else if localVarType != "" {
 			targetType = localVarType
+		} else if fieldType != "" {
+			targetType = fieldType
 		}
 	}
 
